@@ -185,11 +185,12 @@ def r1(ctx, R):
         if dead:
             R.bad(ck, r_, "the conflict test is vacuous: `%s` is provably empty, the raise is dead code; a base "
                           "whose cells clashes with a reference or child space of the sub is accepted" % dead[0])
-        kinds = [n for n in walk_local(ck.node) if isinstance(n, ast.List) and
+        kinds = [n for n in walk_local(ck.node) if isinstance(n, (ast.List, ast.Tuple)) and
                  all(isinstance(e, ast.Constant) for e in n.elts) and {e.value for e in n.elts} >= {"cells", "spaces"}]
         if not kinds or {e.value for e in kinds[0].elts} != {"spaces", "cells", "refs"}:
             R.bad(ck, ck.node, "conflict test does not compare spaces, cells and refs", stmt="kinds")
-        if not any(isinstance(n, ast.For) and norm(n.iter) == "mro" for n in walk_local(ck.node)):
+        iters = [n.iter for n in ast.walk(ck.node) if isinstance(n, (ast.For, ast.comprehension))]
+        if not any(norm(i) == "mro" for i in iters):
             R.bad(ck, ck.node, "conflict test does not collect the names along the MRO", stmt="for sname in mro")
         # pairwise: the accumulated set is built from intersections of two name sets
         aug = [n for n in walk_local(ck.node) if isinstance(n, ast.AugAssign) and isinstance(n.value, ast.BinOp)
